@@ -1139,3 +1139,77 @@ func VerifExtraConfig(n int) {
 	verifapi.Classify("C20/output-changed-by-declaration-of-unmentioned-class/" + x.name)
 	verifapi.Assert(outA == outB, "C20-same-output")
 }
+
+// ---- C17: block parameters and block locals ----
+
+var verifBlockNames = []string{"each-do-one-param", "each-braces-one-param", "each_with_index-two-params", "surplus-parameter-is-nil", "hash-each-value",
+	"times-integer-param", "each_char-string-param", "shadowed-outer-variable-restored", "block-local-not-visible-after", "nested-blocks", "no-params", "range-each"}
+
+func VerifBlocks(n int) {
+	sk := verifapi.Concrete(verifapi.Int("skeleton", 0, len(verifBlockNames)-1))
+	name := verifBlockNames[sk]
+	s := verifInstallSym("a", "b")
+	verifapi.WitnessList("Sym.a", verifKN(s.ka))
+	verifapi.WitnessList("Sym.b", verifKN(s.kb))
+	cls := func(what string) string { return "C17/" + what + "/" + name }
+	uni := verifUnionAlts([]int{s.ka, s.kb})
+	src := ""
+	type ex struct {
+		id   string
+		row  int
+		alts []string
+		what string
+	}
+	var exps []ex
+	switch sk {
+	case 0:
+		src = "a = [Sym.a, Sym.b]\na.each do |e|\ndbtp e\nend\n"
+		exps = []ex{{"C17-p1", 3, uni, "block-parameter-type-wrong"}}
+	case 1:
+		src = "a = [Sym.a, Sym.b]\na.each { |e|\ndbtp e\n}\n"
+		exps = []ex{{"C17-p1", 3, uni, "block-parameter-type-wrong"}}
+	case 2:
+		src = "a = [Sym.a, Sym.b]\na.each_with_index do |e, i|\ndbtp e\ndbtp i\nend\n"
+		exps = []ex{{"C17-p1", 3, uni, "block-parameter-type-wrong"}, {"C17-p2", 4, []string{"Integer"}, "block-parameter-type-wrong"}}
+	case 3:
+		src = "a = [Sym.a, Sym.b]\na.each_with_index do |e, i, z|\ndbtp z\nend\n"
+		exps = []ex{{"C17-p1", 3, []string{"NilClass"}, "surplus-parameter-not-nil"}}
+	case 4:
+		src = "h = {k: Sym.a, j: Sym.b}\nh.each do |k, v|\ndbtp v\nend\n"
+		exps = []ex{{"C17-p1", 3, uni, "block-parameter-type-wrong"}}
+	case 5:
+		src = "x = Sym.a\n3.times do |i|\ndbtp i\nend\n"
+		exps = []ex{{"C17-p1", 3, []string{"Integer"}, "block-parameter-type-wrong"}}
+	case 6:
+		src = "x = Sym.a\n\"ab\".each_char do |c|\ndbtp c\nend\n"
+		exps = []ex{{"C17-p1", 3, []string{"String"}, "block-parameter-type-wrong"}}
+	case 7:
+		src = "e = Sym.b\na = [Sym.a]\na.each do |e|\ndbtp e\nend\ndbtp e\n"
+		exps = []ex{{"C17-p1", 4, []string{verifKN(s.ka)}, "block-parameter-does-not-shadow"}, {"C17-p2", 6, []string{verifKN(s.kb)}, "shadowed-variable-not-restored"}}
+	case 8:
+		src = "a = [Sym.a]\na.each do |e|\nloc = 1\ndbtp loc\nend\ndbtp loc\n"
+		exps = []ex{{"C17-p1", 4, []string{"Integer"}, "block-local-wrong-inside"}}
+	case 9:
+		src = "a = [Sym.a]\nb = [Sym.b]\na.each do |e|\nb.each do |f|\ndbtp f\nend\ndbtp e\nend\n"
+		exps = []ex{{"C17-p1", 5, []string{verifKN(s.kb)}, "block-parameter-type-wrong"}, {"C17-p2", 7, []string{verifKN(s.ka)}, "outer-block-parameter-lost-after-inner-block"}}
+	case 10:
+		src = "a = [Sym.a]\na.each do\n1\nend\ndbtp a\n"
+		exps = []ex{{"C17-p1", 5, verifArrayAlts([]int{s.ka}), "receiver-changed-by-block"}}
+	case 11:
+		src = "x = Sym.a\n(1..3).each do |i|\ndbtp i\nend\n"
+		exps = []ex{{"C17-p1", 3, []string{"Integer"}, "block-parameter-type-wrong"}}
+	}
+	verifapi.Witness("src", src)
+	out := verifRun(src)
+	verifapi.Reach("ran")
+	for _, e := range exps {
+		verifExpectOneOf(out, e.id, cls(e.what), e.row, e.alts)
+	}
+	if sk == 8 {
+		// a variable first assigned inside the block is not visible after it
+		verifapi.Witness("C17-local.row", "6")
+		verifapi.Witness("C17-local.demand", "not:Integer")
+		verifapi.Classify(cls("block-local-visible-after-block"))
+		verifapi.Assert(verifLine(out, 6) != "Integer", "C17-local")
+	}
+}
